@@ -165,6 +165,7 @@ fn ext_full<T: Model + BorshSerialize + BorshDeserialize>(op: &str, args: &[&str
     crate::ops_io::io_ser_ops::<T>(op, args)
         .or_else(|| crate::ops_io::io_de_ops::<T>(op, args))
         .or_else(|| crate::ops_canon::ops::<T>(op, args))
+        .or_else(|| crate::ops_cost::cost_ops::<T>(op, args))
 }
 #[cfg(any(feature = "cfg_std", feature = "cfg_nostd"))]
 fn ext_ser<T: Model + BorshSerialize>(op: &str, args: &[&str]) -> Option<String> {
